@@ -3,6 +3,7 @@ import Tw.Model.Conn7
 import Tw.Proofs.Conn6
 import Tw.Proofs.Conn7
 import Tw.Model.OnlineNet
+import Tw.Proofs.ConnProgress
 
 /-!
 # C02 — the connection makes progress: every call returns, the deadline is finite
@@ -21,14 +22,14 @@ the repair).
 0.7's `PendingConnect` it is false (defect D23, open): the full statement is `C02_deadline_full`,
 the theorem is `conn7_deadline_finite_partial`, the counterexample `conn7_deadline_witness`.
 
-(c) **Progress under a fair suffix** is stated in full as `C02_progress_full` over the two-endpoint
-system of `Tw/Model/OnlineNet.lean` (`fairRound`: both sides resend and flush, every datagram of the
-round is delivered once, in order).  Proved of it: `progress_in_order_delivery_partial` — a packet
-that carries exactly the receiver's next `m` chunks in order (as a resend builds it) advances the
-receiver by exactly `m` and hands over exactly those payloads, with no window assumption — and
-`fair_round_demo` (a lossy prefix followed by two fair rounds reaches quiescence; computed).  The
-ranking-function argument (handshake phase, undelivered, unacknowledged, queued) is not proved; the
-`C02/not-quiescent` oracle checks quiescence after a fair suffix on the implementation.
+(c) **Progress under a fair suffix.**  Online phase: `C02_progress` — over the two-endpoint system of
+`Tw/Model/OnlineNet.lean` (`fairRound`: both sides resend and flush, every datagram of the round is
+delivered once, in order), from every state reachable under an arbitrary admissible prefix at most
+four fair rounds reach `quiescent` (everything handed over, queues and packets empty, no resend
+request pending); the bound is constant.  Handshake: `handshake6_fair` (two deliveries) and
+`handshake7_fair` (four deliveries) make the connector `Online` and `Ready`.  Not composed into one
+statement over two full connections with clocks (ticks at the reported deadline): the
+`C02/not-quiescent` oracle checks exactly that on the implementation.
 -/
 namespace Tw.Props.C02
 open Tw.Conn Tw.Time
@@ -140,12 +141,31 @@ theorem conn7_deadline_witness : ¬ C02_deadline_full := by
 
 /-! ## (c) progress under a fair suffix -/
 
-/-- the full progress claim for the online phase: from every reachable state, a bounded number of fair
-rounds (the bound may depend on the amount queued) reaches quiescence -/
+/-- the full progress claim for the online phase: from every state reachable under an arbitrary
+admissible prefix (loss, duplication, reordering, delay, application calls), at most **four** fair
+rounds reach quiescence — everything submitted handed over, both resend queues and packets empty, no
+resend request pending.  The bound is a constant: round 1 hands everything over, round 2 carries the
+acks that empty the queues, round 3 flushes what the duplicates of round 2 left queued, round 4
+clears the last resend request.  (The handshake rounds are `handshake6_fair` / `handshake7_fair`.) -/
 def C02_progress_full : Prop :=
   ∀ (cfg : Cfg), cfg.Ok → ∀ (ms : List Tw.OnlineNet.Move) (s : Tw.OnlineNet.Sys), Tw.OnlineNet.run cfg .init ms = some s →
-    ∃ k s', k ≤ 3 + 2 * ((s.ep true).resendQueue.length + (s.ep false).resendQueue.length) ∧
-      Tw.OnlineNet.fairRounds cfg k s = some s' ∧ Tw.OnlineNet.quiescent s'
+    ∃ k s', k ≤ 4 ∧ Tw.OnlineNet.fairRounds cfg k s = some s' ∧ Tw.OnlineNet.quiescent s'
+
+/-- **progress under a fair suffix (online phase)** — proof: `Tw/Proofs/ConnProgress.lean` (builder
+`connc01`), on top of the component lemmas of `Tw/Proofs/ConnProgressCore.lean` -/
+theorem C02_progress : C02_progress_full :=
+  fun _ hc ms s hr => Tw.OnlineNet.progress hc ms s hr
+
+/-- … for the 0.6 and the 0.7 configuration -/
+theorem C02_progress6 (ms : List Tw.OnlineNet.Move) (s : Tw.OnlineNet.Sys)
+    (hr : Tw.OnlineNet.run Tw.Conn6.cfg .init ms = some s) :
+    ∃ k s', k ≤ 4 ∧ Tw.OnlineNet.fairRounds Tw.Conn6.cfg k s = some s' ∧ Tw.OnlineNet.quiescent s' :=
+  C02_progress _ Tw.Conn6.cfg_ok ms s hr
+
+theorem C02_progress7 (ms : List Tw.OnlineNet.Move) (s : Tw.OnlineNet.Sys)
+    (hr : Tw.OnlineNet.run Tw.Conn7.cfg .init ms = some s) :
+    ∃ k s', k ≤ 4 ∧ Tw.OnlineNet.fairRounds Tw.Conn7.cfg k s = some s' ∧ Tw.OnlineNet.quiescent s' :=
+  C02_progress _ Tw.Conn7.cfg_ok ms s hr
 
 /-- the chunks of a packet are exactly the sender's chunks `d, d+1, …, d+m-1` in order (non-vital
 chunks may be interleaved) — the shape `resend` gives a packet -/
@@ -200,6 +220,111 @@ theorem fair_round_demo :
           (s'.ep true).resendQueue.isEmpty && (s'.ep false).resendQueue.isEmpty &&
           (s'.ep true).packet.chunks.isEmpty && (s'.ep false).packet.chunks.isEmpty) = true := by
   decide +kernel
+
+/-! ### the handshake rounds (separate from the online phase) -/
+
+/-- what `sendControl` sends, exactly -/
+theorem sendControl6_eq (st : Tw.Conn6.State) (ctl : Tw.Conn6.Control) (p : Tw.Conn6.Packet)
+    (hp : Tw.Conn6.controlPacket st ctl = .ok p) (hv : p.valid = true) : Tw.Conn6.sendControl st ctl = .ok [p] := by
+  unfold Tw.Conn6.sendControl
+  rw [hp]
+  exact Tw.Conn6.emit_ok (by intro q hq; simp at hq; subst hq; exact hv)
+
+/-- **0.6 handshake, fair delivery**: `connect`, then the connect request delivered to a fresh acceptor
+(whose random source yields a usable token `t`), then its answer delivered back: the connector is
+`Online` with `t`, has been told `Ready` exactly in that call, and has sent `Accept`; the acceptor is
+`Pending` with `t` and its send timer armed (it goes `Online` with the first chunk packet:
+`Tw.Conn6.feedBody`, chunks case).  Three calls, two datagram deliveries. -/
+theorem handshake6_fair (now1 now2 now3 : Nat) (draws : List Nat) (t : Nat)
+    (ht : Tw.Conn6.tokenRandom draws = some t) :
+    ∃ c1 c2 s1,
+      Tw.Conn6.connect { now := now1 } .new =
+        .ok (c1, { sent := [.control 0 (some Tw.Conn6.TOKEN_NONE) .connect] }) ∧
+      Tw.Conn6.feed { now := now2, draws := draws } .new (fun _ => some (.control 0 (some Tw.Conn6.TOKEN_NONE) .connect)) =
+        .ok (s1, { sent := [.control 0 (some t) .connectAccept] }) ∧
+      s1.state = .pending (some t) ∧ s1.needsTick ≠ .inactive ∧
+      Tw.Conn6.feed { now := now3 } c1 (fun _ => some (.control 0 (some t) .connectAccept)) =
+        .ok (c2, { sent := [.control 0 (some t) .accept], events := [.ready] }) ∧
+      c2.state = .online (some t) .new := by
+  have v1 : (Tw.Conn6.Packet.control 0 (some Tw.Conn6.TOKEN_NONE) .connect).valid = true :=
+    Tw.Conn6.control_valid _ _ _ (by simp)
+  have v2 : (Tw.Conn6.Packet.control 0 (some t) .connectAccept).valid = true := Tw.Conn6.control_valid _ _ _ (by simp)
+  have v3 : (Tw.Conn6.Packet.control 0 (some t) .accept).valid = true := Tw.Conn6.control_valid _ _ _ (by simp)
+  have e1 := sendControl6_eq .connecting .connect _ rfl v1
+  have e2 := sendControl6_eq (.pending (some t)) .connectAccept _ rfl v2
+  have e3 := sendControl6_eq (.online (some t) .new) .accept _ rfl v3
+  refine ⟨⟨.connecting, Tw.Time.Timeout.after now1 sendUs⟩, ⟨.online (some t) .new, Tw.Time.Timeout.after now1 sendUs⟩,
+    ⟨.pending (some t), Tw.Time.Timeout.after now2 sendUs⟩, ?_, ?_, rfl, ?_, ?_, rfl⟩
+  · simp [Tw.Conn6.connect, Tw.Conn6.Conn.new, Tw.Conn6.tickAction, e1]
+  · simp [Tw.Conn6.feed, Tw.Conn6.Conn.new, Tw.Conn6.Conn.hint, Tw.Conn6.State.token?, Tw.Conn6.Packet.tokenAck?,
+      Tw.Conn6.feedBody, ht, Tw.Conn6.tickAction, e2]
+  · simp [Tw.Conn6.Conn.needsTick, Tw.Time.Timeout.min, Tw.Time.Timeout.le, Tw.Time.Timeout.after]
+  · simp [Tw.Conn6.feed, Tw.Conn6.Conn.hint, Tw.Conn6.State.token?, Tw.Conn6.Packet.tokenAck?,
+      Tw.Conn6.feedBody, e3]
+    rfl
+
+theorem sendControlWith7_eq (st : Tw.Conn7.State) (ctl : Tw.Conn7.Control) (tok : Nat)
+    (hst : st.isOnline = false) (hv : (Tw.Conn7.Packet.control 0 tok ctl).valid = true) :
+    Tw.Conn7.sendControlWith st ctl tok = .ok [.control 0 tok ctl] := by
+  have he : Tw.Conn7.emit [.control 0 tok ctl] = .ok [.control 0 tok ctl] :=
+    Tw.Conn7.emit_ok (by intro q hq; simp at hq; subst hq; exact hv)
+  cases st with
+  | online a b o => simp [Tw.Conn7.State.isOnline] at hst
+  | unconnected => exact he
+  | token a => exact he
+  | pendingConnect a => exact he
+  | connecting a b => exact he
+  | pending a b => exact he
+  | disconnected => exact he
+
+/-- **0.7 handshake, fair delivery**: token request, token answer, connect, accept — five calls, four
+datagram deliveries — make the connector `Online` and `Ready`; the acceptor is `Pending` (online with
+the first chunk packet).  While the acceptor is in `PendingConnect` (after the second call) it has no
+deadline (D23), which does not matter as long as the client's `Connect` arrives. -/
+theorem handshake7_fair (n1 n2 n3 n4 n5 : Nat) (dA dB : List Nat) (a b : Nat)
+    (ha : Tw.Conn7.tokenRandom dA = some a) (hb : Tw.Conn7.tokenRandom dB = some b) :
+    ∃ c1 c2 c3 s1 s2,
+      Tw.Conn7.connect { now := n1, draws := dA } .new =
+        .ok (c1, { sent := [.control 0 Tw.Conn7.TOKEN_NONE (.token a)] }) ∧
+      Tw.Conn7.feed { now := n2, draws := dB } .new (some (.control 0 Tw.Conn7.TOKEN_NONE (.token a))) =
+        .ok (s1, { sent := [.control 0 a (.token b)] }) ∧
+      Tw.Conn7.feed { now := n3 } c1 (some (.control 0 a (.token b))) =
+        .ok (c2, { sent := [.control 0 b (.connect a)] }) ∧
+      Tw.Conn7.feed { now := n4 } s1 (some (.control 0 b (.connect a))) =
+        .ok (s2, { sent := [.control 0 a .accept] }) ∧
+      s2.state = .pending b a ∧ s2.needsTick ≠ .inactive ∧
+      Tw.Conn7.feed { now := n5 } c2 (some (.control 0 a .accept)) = .ok (c3, { events := [.ready] }) ∧
+      c3.state = .online a b .new := by
+  have na := Tw.Conn7.tokenRandom_ne ha
+  have nb := Tw.Conn7.tokenRandom_ne hb
+  have v1 : (Tw.Conn7.Packet.control 0 Tw.Conn7.TOKEN_NONE (.token a)).valid = true :=
+    Tw.Conn7.control_valid _ _ _ (by simp) (by simp) (by intro rt h; injection h with h; subst h; exact na)
+  have v2 : (Tw.Conn7.Packet.control 0 a (.token b)).valid = true :=
+    Tw.Conn7.control_valid _ _ _ (by simp) (by simp) (by intro rt h; injection h with h; subst h; exact nb)
+  have v3 : (Tw.Conn7.Packet.control 0 b (.connect a)).valid = true :=
+    Tw.Conn7.control_valid _ _ _ (by simp) (by intro rt h; injection h with h; subst h; exact na) (by simp)
+  have v4 : (Tw.Conn7.Packet.control 0 a .accept).valid = true :=
+    Tw.Conn7.control_valid _ _ _ (by simp) (by simp) (by simp)
+  have e1 : Tw.Conn7.sendControl (.token a) (.token a) = .ok [.control 0 Tw.Conn7.TOKEN_NONE (.token a)] :=
+    sendControlWith7_eq _ _ _ rfl v1
+  have e2 := sendControlWith7_eq (.pendingConnect b) (.token b) a rfl v2
+  have e3 : Tw.Conn7.sendControl (.connecting a b) (.connect a) = .ok [.control 0 b (.connect a)] :=
+    sendControlWith7_eq _ _ _ rfl v3
+  have e4 : Tw.Conn7.sendControl (.pending b a) .accept = .ok [.control 0 a .accept] :=
+    sendControlWith7_eq _ _ _ rfl v4
+  have hne : ¬ (a = Tw.Conn7.TOKEN_NONE) := na
+  refine ⟨⟨.token a, Tw.Time.Timeout.after n1 sendUs⟩, ⟨.connecting a b, Tw.Time.Timeout.after n3 sendUs⟩,
+    ⟨.online a b .new, Tw.Time.Timeout.after n3 sendUs⟩, ⟨.pendingConnect b, .inactive⟩,
+    ⟨.pending b a, Tw.Time.Timeout.after n4 sendUs⟩, ?_, ?_, ?_, ?_, rfl, ?_, ?_, rfl⟩
+  · simp [Tw.Conn7.connect, Tw.Conn7.Conn.new, ha, Tw.Conn7.tickAction, e1]
+  · simp [Tw.Conn7.feed, Tw.Conn7.Conn.new, Tw.Conn7.expectedToken, Tw.Conn7.State.ownToken?,
+      Tw.Conn7.feedBody, hb, e2]
+  · simp [Tw.Conn7.feed, Tw.Conn7.expectedToken, Tw.Conn7.State.ownToken?, Tw.Conn7.feedBody,
+      Tw.Conn7.tickAction, e3]
+  · simp [Tw.Conn7.feed, Tw.Conn7.expectedToken, Tw.Conn7.State.ownToken?, Tw.Conn7.feedBody,
+      Tw.Conn7.tickAction, e4]
+  · simp [Tw.Conn7.Conn.needsTick, Tw.Time.Timeout.min, Tw.Time.Timeout.le, Tw.Time.Timeout.after]
+  · simp [Tw.Conn7.feed, Tw.Conn7.expectedToken, Tw.Conn7.State.ownToken?, Tw.Conn7.feedBody]
 
 /-! ## Non-vacuity -/
 
